@@ -26,6 +26,7 @@ import (
 	"github.com/samaritan-proxy/samaritan/pb/config/service"
 	"github.com/samaritan-proxy/samaritan/proc"
 	_ "github.com/samaritan-proxy/samaritan/proc/tcp"
+	"github.com/samaritan-proxy/samaritan/utils"
 )
 
 func tcpConfig(port int) *service.Config {
@@ -133,6 +134,20 @@ func runC09(line string) string {
 			}()
 		}
 	}
+	var releaseBh func()
+	if sc == "stop-during-connect" {
+		// a third master, known from CLUSTER NODES only, whose connects hang for about a second (full accept queue, freed
+		// later: the retransmitted SYN gets through) - slots 0..200 are its own
+		addr, release, closeBh := newSlowConnect()
+		defer closeBh()
+		releaseBh = release
+		cl.mu.Lock()
+		cl.extra = []simExtraMaster{{addr, 0, 200}}
+		for s := 0; s <= 200; s++ {
+			cl.owner[s] = 1 << 20 // nobody among the real nodes
+		}
+		cl.mu.Unlock()
+	}
 	if sc == "stop-silent-backend" || sc == "stop-halfclosed-silent" {
 		cl.nodes[0].silent, cl.nodes[1].silent = true, true
 	}
@@ -148,6 +163,9 @@ func runC09(line string) string {
 	if proto == "redis" {
 		simTimersOnce.Do(func() {})
 		cfg = redisConfig(port, 0, 300*time.Millisecond)
+		if sc == "stop-during-connect" {
+			cfg.ConnectTimeout = utils.DurationPtr(4 * time.Second)
+		}
 	} else {
 		cfg = tcpConfig(port)
 	}
@@ -236,6 +254,25 @@ func runC09(line string) string {
 			c.(*net.TCPConn).CloseWrite()
 		}
 		settle(40 * time.Millisecond)
+	case "stop-during-connect":
+		// Stop arrives while a backend connect is in progress (it completes a second later): no connection, no goroutine
+		// may be left behind by the connect that finishes after Stop
+		waitListening()
+		settle(60 * time.Millisecond)
+		if c, err := net.DialTimeout("tcp", addr, time.Second); err == nil {
+			clients = append(clients, c)
+			var pk []byte
+			for i := 0; ; i++ {
+				pk = []byte("slowkey" + strconv.Itoa(i))
+				if simSlot(pk) <= 200 {
+					break
+				}
+			}
+			c.Write(bulkArr([]byte("get"), pk).bytes())
+		}
+		time.Sleep(150 * time.Millisecond) // the processor is dialling
+		releaseBh()                        // the next SYN retransmission (about 1 s after the first) will be accepted
+		time.Sleep(50 * time.Millisecond)
 	case "stop-after-conn-loss":
 		// backend connections are lost again and again while requests are outstanding on them and more keep coming;
 		// whatever connections the service made in the meantime, Stop closes them all
@@ -476,6 +513,61 @@ func runC09(line string) string {
 	return out
 }
 
+// newSlowConnect: a listening socket whose accept queue is full (connects hang: the SYN is dropped) until release()
+// empties it, after which the client's next SYN retransmission completes the connect
+func newSlowConnect() (addr string, release func(), closeAll func()) {
+	fd, err := syscall.Socket(syscall.AF_INET, syscall.SOCK_STREAM, 0)
+	if err != nil {
+		die("slow-connect socket: %v", err)
+	}
+	syscall.SetsockoptInt(fd, syscall.SOL_SOCKET, syscall.SO_REUSEADDR, 1)
+	if err := syscall.Bind(fd, &syscall.SockaddrInet4{Port: 0, Addr: [4]byte{127, 0, 0, 1}}); err != nil {
+		die("slow-connect bind: %v", err)
+	}
+	syscall.Listen(fd, 0)
+	syscall.SetNonblock(fd, true)
+	sa, _ := syscall.Getsockname(fd)
+	addr = fmt.Sprintf("127.0.0.1:%d", sa.(*syscall.SockaddrInet4).Port)
+	var fill []net.Conn
+	for i := 0; i < 4; i++ {
+		if c, err := net.DialTimeout("tcp", addr, 150*time.Millisecond); err == nil {
+			fill = append(fill, c)
+		}
+	}
+	var accepted []int
+	closed := false
+	release = func() {
+		for {
+			nfd, _, err := syscall.Accept(fd)
+			if err != nil {
+				break
+			}
+			accepted = append(accepted, nfd)
+		}
+		// keep accepting for a while: the retransmitted SYN's connection must find room too
+		go func() {
+			for t := 0; t < 140 && !closed; t++ { // it ends by itself well before goroutines are counted
+				if nfd, _, err := syscall.Accept(fd); err == nil {
+					_ = nfd // stays open: a backend that accepted and says nothing
+				}
+				time.Sleep(10 * time.Millisecond)
+			}
+		}()
+	}
+	closeAll = func() {
+		closed = true
+		time.Sleep(15 * time.Millisecond)
+		for _, c := range fill {
+			c.Close()
+		}
+		for _, nfd := range accepted {
+			syscall.Close(nfd)
+		}
+		syscall.Close(fd)
+	}
+	return
+}
+
 var c09Burst int
 
 // runLimitBurst: n clients connect at the same moment to a TCP service limited to l connections and stay connected
@@ -564,7 +656,7 @@ func init() {
 				}
 			}
 			lines = append(lines, "redis stop-silent-backend 2", "tcp register-after-stop", "redis stop-halfclosed-silent", "redis drain-while-binding", "tcp drain-while-binding", "tcp drain-during-bind", "tcp stop-during-bind",
-				"redis stop-after-conn-loss 3", "redis stop-after-conn-loss 2", "tcp accept-emfile", "redis accept-emfile")
+				"redis stop-after-conn-loss 3", "redis stop-after-conn-loss 2", "tcp accept-emfile", "redis accept-emfile", "redis stop-during-connect")
 			for i := 0; i < 6; i++ {
 				lines = append(lines, fmt.Sprintf("tcp limit-burst %d %d", 1+r.intn(3), 6+r.intn(20)))
 				lines = append(lines, fmt.Sprintf("tcp register-burst %d %d", 1+r.intn(4), 32+r.intn(64)))
